@@ -980,6 +980,39 @@ pub fn open_kind<D: Distance>(rtxn: &RoTxn, db: RawDb, index: u16) -> (OpenKind,
 }
 
 /// C06: Reader::open and need_build agree with the model's staleness.
+/// Answers of one searchable index other than `op_ix` to a fixed query under a ladder of limited budgets
+/// (around the database's entry count, the figure `Reader::n_nodes` hands out): (position, ladder, answers).
+/// With `again` the same index and ladder are asked again.
+pub type ForeignAnswers = (usize, Vec<usize>, Vec<Vec<(u32, u32)>>);
+pub fn foreign_answers(rtxn: &RoTxn, db: RawDb, model: &Model, op_ix: usize, again: Option<&ForeignAnswers>) -> Option<ForeignAnswers> {
+    let j = match again {
+        Some(a) => a.0,
+        // the largest one: its forest is the most likely to need more budget than the database has entries
+        None => (0..model.ix.len()).filter(|j| *j != op_ix && model.ix[*j].has_metadata && !model.ix[*j].dirty && model.ix[*j].items.len() >= 2).max_by_key(|j| model.ix[*j].items.len())?,
+    };
+    let m = &model.ix[j];
+    let q = m.items.values().next()?.clone();
+    let n = m.items.len();
+    with_metric!(m.metric, D, {
+        let reader = Reader::<D>::open(rtxn, m.index, adb::<D>(db)).ok()?;
+        let ladder: Vec<usize> = match again {
+            Some(a) => a.1.clone(),
+            None => {
+                let len = reader.n_nodes(rtxn).ok()?.map_or(1, |x| x.get());
+                vec![len.saturating_sub(3).max(1), len.saturating_sub(1).max(1), len, len + 1, len + 2, len + 4, len + 40, (n / 2).max(1)]
+            }
+        };
+        let mut answers = Vec::new();
+        for sk in &ladder {
+            let mut qb = reader.nns(n);
+            qb.search_k(NonZeroUsize::new(*sk).unwrap());
+            let r = guarded(|| qb.by_vector(rtxn, &q)).ok()?.ok()?;
+            answers.push(r.into_iter().map(|(id, d)| (id, d.to_bits())).collect());
+        }
+        Some((j, ladder, answers))
+    })
+}
+
 pub fn check_staleness(rtxn: &RoTxn, db: RawDb, m: &IndexModel, rng: &mut StdRng, c: &mut Counters) -> Result<(), String> {
     let (k, desc) = with_metric!(m.metric, D, open_kind::<D>(rtxn, db, m.index));
     let want = if !m.has_metadata {
@@ -1236,6 +1269,7 @@ impl Engine<'_> {
             || matches!(op, Op::Append { .. })
             || (matches!(op, Op::ChangeMetric { .. }));
         let pre = if need_pre_dump { Some(rawdb::dump(wtxn, db).unwrap()) } else { None };
+        let pre_answers = if ck.isolation && model.ix.len() > 1 { foreign_answers(wtxn, db, model, op_ix, None) } else { None };
         let mut touched: Vec<u32> = Vec::new();
         let mut unchanged_expected = false;
         match op {
@@ -1438,6 +1472,11 @@ impl Engine<'_> {
                 self.c.add("isolation_foreign_entries", a.len() as u64);
             }
         }
+        if let Some(pa) = &pre_answers {
+            if let Some(end) = self.compare_foreign_answers(wtxn, db, model, op_ix, pa, step, &desc) {
+                return Some(end);
+            }
+        }
         if ck.store && !matches!(op, Op::Build { .. }) {
             let m = &model.ix[op_ix];
             let mut probe = touched.clone();
@@ -1475,6 +1514,31 @@ impl Engine<'_> {
     }
 
     /// A failure another property owns: violation if this profile owns it, else truncation.
+    /// C07, "hence ... the same query answers": an index nobody touched answers the same limited-budget
+    /// queries after an operation on another index as before it.
+    #[allow(clippy::too_many_arguments)]
+    fn compare_foreign_answers(&mut self, rtxn: &RoTxn, db: RawDb, model: &Model, op_ix: usize, pre: &ForeignAnswers, step: usize, desc: &str) -> Option<CaseEnd> {
+        let other = model.ix[pre.0].index;
+        match foreign_answers(rtxn, db, model, op_ix, Some(pre)) {
+            None => Some(vio(step, "isolation:answers", format!("{desc} on index {}: index {other}, searchable before the operation, no longer opens or answers", model.ix[op_ix].index))),
+            Some(post) => {
+                for (k, sk) in pre.1.iter().enumerate() {
+                    if pre.2[k] != post.2[k] {
+                        let show = |v: &Vec<(u32, u32)>| format!("{} results {:?}…", v.len(), v.iter().take(4).map(|(i, d)| (*i, f32::from_bits(*d))).collect::<Vec<_>>());
+                        return Some(vio(
+                            step,
+                            "isolation:answers",
+                            format!("{desc} on index {} changed what index {other} answers to nns({}).search_k({sk}) for a fixed query: before {}, after {}", model.ix[op_ix].index, model.ix[pre.0].items.len(), show(&pre.2[k]), show(&post.2[k])),
+                        ));
+                    }
+                }
+                self.c.inc("isolation_answers_compared");
+                self.c.add("isolation_queries_compared", pre.1.len() as u64);
+                None
+            }
+        }
+    }
+
     pub fn own(&mut self, owned: bool, step: usize, key: &str, msg: String) -> CaseEnd {
         if owned {
             vio(step, key, msg)
@@ -1505,6 +1569,7 @@ impl Engine<'_> {
             (m.index, m.metric, m.dims, m.items.len())
         };
         let pre_iso = if ck.isolation && model.ix.len() > 1 { Some(rawdb::dump(wtxn, db).unwrap()) } else { None };
+        let pre_answers = if ck.isolation && model.ix.len() > 1 { foreign_answers(wtxn, db, model, op_ix, None) } else { None };
         let prev_roots = self.prev_forest.get(&index).and_then(|f| f.metadata.as_ref()).map_or(0, |m| m.roots.len());
         let trees_bound = opts.n_trees.unwrap_or(n.min(dims.max(1))).max(prev_roots) + 1;
         let batches = if opts.memory.is_some() { n / 200 + 2 } else { 0 };
@@ -1610,6 +1675,11 @@ impl Engine<'_> {
             }
             self.c.inc("isolation_dumps_compared");
             self.c.add("isolation_foreign_entries", a.len() as u64);
+        }
+        if let Some(pa) = &pre_answers {
+            if let Some(end) = self.compare_foreign_answers(wtxn, db, model, op_ix, pa, step, desc) {
+                return Some(end);
+            }
         }
         // structural monitors on the raw dump
         let mut decoded: Option<RawIndex> = None;
